@@ -405,4 +405,9 @@ theorem generated_committed_size_value (ld64 : Nat → Nat) (cm total : Nat) (hw
   rw [e] at hw ⊢
   exact CSizeL.committed_size_eq ld64 cm total hw
 
+-- non-vacuity of `generated_committed_size_is_total_iff_mask_full`: a full mask reports the 32 MiB, one cleared bit 64 KiB less
+example : GenL._mi_commit_mask_committed_size (fun _ => 18446744073709551615) 4096 33554432 = 33554432 := by decide
+example : GenL._mi_commit_mask_committed_size (fun a => if a = 4096 then 18446744073709551614 else 18446744073709551615) 4096 33554432 = 33488896 := by
+  decide +kernel
+
 end C07
